@@ -55,6 +55,11 @@ def sig_oracle(modn=(), int_msg=False, blocks=False, ok_malleations=(), extra=No
             return
         out.evals += 1
         out.keys.add((s.scheme, tuple(s.faults()), got, bool(ch), s.opts.get('hash'), s.opts.get('pack')))
+        if P.all_identity(s):
+            out.fault('all-identity-triple')
+            if got == '1':
+                v.bad('all-identity|expected=reject|got=accept', 'the triple in which every group element is the identity was accepted')
+            return
         if 'rerandomised' in s.notes:
             out.probe('legal-malleation')
         if 'statements-swapped' in s.notes:
